@@ -10,6 +10,10 @@ Two correspondence streams, both against the REAL code of the tree under test:
                plain and generator, consumed directly and through a test-scoped fixture, 1..8 workers, tests
                pinned to distinct workers by barriers in the `setup_test` hook (so the first accesses race).
 
+Since /repo commit 8e1157b (fix of D31) `teardown_factory` tears down EVERY object even when some
+`teardown_object` calls raise and re-raises the first exception after the loop; raising teardown calls are
+therefore generated at ANY position in both streams and clause 4 of the oracle is unconditional.
+
 Both record ONE globally ordered trace under one lock.  Model side: the trace (per factory instance) is replayed
 on the Lean acceptor `LccModel.Threads.Factory.step` (drivers/C15.lean); every step must be accepted and the
 final ghost state must equal what was observed.  Oracle: the four clauses of the property, evaluated on the
@@ -25,7 +29,7 @@ import time
 import common as C
 
 PROPERTY = "C15"
-LEAN_MODULES = ["LccModel.Props.C15"]
+LEAN_MODULES = ["LccModel.Props.C15", "LccModel.Proto"]   # the last one: what drivers/C15.lean imports besides the model
 PROPS_FILES = ["LccModel/Props/C15.lean"]
 NAMESPACES = {"LccModel/Props/C15.lean": "LccModel.C15"}
 DRIVER = "drivers/C15.lean"
@@ -43,20 +47,23 @@ ASSUMPTIONS = [
     "setup_object returns a fresh object at every successful call (a setup_object that returns the same object twice shares it itself)",
     "teardown_factory is called after every get_object call has completed (runner: on-completion dependencies of the suite/session "
     "teardown task; the interrupt path D11 is C08's finding and is not exercised here)",
+    "the tree under test contains /repo commit 8e1157b (teardown_factory continues after a raising teardown_object); on an older "
+    "tree the check reports a VIOLATION with signature C15/teardown-raises-skips-remaining-instances",
     "worker threads of one run are alive for the whole run, so thread identifiers are not reused inside a run",
     "the run-level clause 'torn down when the scope's teardown task runs, after all consumers' is C03's theorem; here it is the "
     "explicit precondition of the factory theorems and is checked on every real run by the oracle",
 ]
 RULE = ("C15.factory: 1..8 real threads × gets per thread × raising setup attempts × race mode (barrier / rendezvous inside "
-        "setup_object / seeded line scheduler) × 0/1/2 teardown_factory calls; non-trivial = ≥ 2 threads created an object, ≥ 2 "
+        "setup_object / seeded line scheduler) × 0/1/2 teardown_factory calls × raising teardown_object calls at any position; non-trivial = ≥ 2 threads created an object, ≥ 2 "
         "gets returned, and two threads were inside get_object's creation window at the same time.  C15.run: real run_suites "
         "runs, 1..8 workers, 1..3 suites (one may be nested), session/suite × plain/generator per-thread fixtures, direct and "
         "via a test-scoped fixture; non-trivial = ≥ 2 worker threads consumed the same fixture instance set and ≥ 2 consumers.  "
         "distinct = hash of the case")
-EXPLANATION = ("Clauses 1-3 and the structure of _objects are Lean theorems over every interleaving of the source-line steps of "
-               "get_object for any number of threads; exactly-once teardown is proved under the exact guard 'no teardown_object "
-               "raises' and refuted without it (open finding D31, witness replayed on the real code on every run).  Every real "
-               "trace is replayed step by step on the same transition function.")
+EXPLANATION = ("All four clauses and the structure of _objects are Lean theorems over every interleaving of the source-line steps of "
+               "get_object / teardown_factory for any number of threads; exactly-once teardown holds at full strength (raising "
+               "teardown_object calls included) for the loop as repaired by /repo 8e1157b, and the first exception is re-raised "
+               "after the loop (the old loop's defect D31 survives only as a *_legacy documentation theorem).  Every real trace is "
+               "replayed step by step on the same transition function; the two D31 witnesses stay in the corpus and must pass.")
 
 SIG_D31 = "C15/teardown-raises-skips-remaining-instances"
 
@@ -66,7 +73,11 @@ class _Boom(Exception):
 
 
 class _TdBoom(Exception):
-    """raised by generated teardown code"""
+    """raised by generated teardown code; `oid` = the object whose teardown raised"""
+
+    def __init__(self, oid=None):
+        Exception.__init__(self, "generated teardown failure (object %s)" % (oid,))
+        self.oid = oid
 
 
 def _load_linesched():
@@ -103,15 +114,18 @@ class Factory(C.Stream):
     thorough_seconds = 400
     chunk = 50
     corpus = [
-        # D31 witness: two threads, one object each, the first teardown_object call raises
+        # D31 witness (fixed by 8e1157b, must PASS): two threads, one object each, the first teardown_object call raises
         {"threads": 2, "mode": "barrier", "gets": [1, 1], "raise_at": [[], []], "setup": ["rendezvous", "rendezvous"],
          "delay": [0, 0], "teardowns": 1, "td_raise_calls": [0], "seed": 1},
         # same with 4 threads and the raise in the middle
         {"threads": 4, "mode": "barrier", "gets": [2, 1, 1, 2], "raise_at": [[], [], [], []],
          "setup": ["rendezvous"] * 4, "delay": [0, 0, 0, 0], "teardowns": 1, "td_raise_calls": [1], "seed": 2},
-        # raising teardown at the LAST position: nothing is skipped
+        # raising teardown at the LAST position
         {"threads": 3, "mode": "barrier", "gets": [1, 2, 1], "raise_at": [[], [], []], "setup": ["none"] * 3,
          "delay": [0, 0, 0], "teardowns": 1, "td_raise_calls": [2], "seed": 3},
+        # several raising teardown calls: the FIRST exception is the one re-raised; second run raises again
+        {"threads": 4, "mode": "line", "gets": [1, 2, 1, 1], "raise_at": [[], [0], [], []], "setup": ["none"] * 4,
+         "delay": [0, 0, 0, 0], "teardowns": 2, "td_raise_calls": [1, 3, 4], "seed": 7},
         # the shape of the existing unit test (sequential threads, two gets each) + teardown
         {"threads": 2, "mode": "free", "gets": [2, 2], "raise_at": [[], []], "setup": ["none", "none"],
          "delay": [0, 30], "teardowns": 1, "td_raise_calls": [], "seed": 4},
@@ -143,9 +157,13 @@ class Factory(C.Stream):
             setup = [("rendezvous" if p < 0.6 else rng.choice(["none", "sleep", "yield", "rendezvous"])) for _ in range(k)]
         delay = [0] * k if mode != "free" else [rng.choice([0, 0, 1, 3, 8]) for _ in range(k)]
         teardowns = rng.choice([1, 1, 1, 1, 2, 0])
-        # a raising teardown_object is only generated at the LAST call of a single run (nothing can be skipped
-        # behind it); raises at other positions are the open finding D31 and live in the corpus only
-        td_raise_calls = ["last"] if (teardowns == 1 and rng.random() < 0.15) else []
+        # raising teardown_object calls at ANY position (indices into the global sequence of teardown_object calls)
+        td_raise_calls = []
+        if teardowns and rng.random() < 0.4:
+            n_calls = k * teardowns
+            td_raise_calls = sorted(rng.sample(range(n_calls), rng.randint(1, min(3, n_calls))))
+            if rng.random() < 0.2:
+                td_raise_calls = ["last"]
         return {"threads": k, "mode": mode, "gets": gets, "raise_at": raise_at, "setup": setup, "delay": delay,
                 "teardowns": teardowns, "td_raise_calls": td_raise_calls, "seed": rng.randrange(1 << 30)}
 
@@ -223,7 +241,7 @@ class Factory(C.Stream):
                     ok = not (i in td_raise or ("last" in td_raise and i == st["created"] - 1))
                     trace.append(["td", t, oid(obj), ok])
                 if not ok:
-                    raise _TdBoom()
+                    raise _TdBoom(oid(obj))
 
         f = F()
         sched = None
@@ -271,15 +289,15 @@ class Factory(C.Stream):
                 trace.append(["tdbegin", k])
             try:
                 f.teardown_factory()
-            except _TdBoom:
+            except _TdBoom as e:       # teardown_factory re-raised the exception of teardown_object(e.oid)
                 with lock:
-                    trace.append(["tdend", k, False])
+                    trace.append(["tdend", k, e.oid])
             except Exception as e:
                 with lock:
                     trace.append(["tdend", k, "?" + type(e).__name__])
             else:
                 with lock:
-                    trace.append(["tdend", k, True])
+                    trace.append(["tdend", k, None])
         if sched is not None and sched.broken:
             notes.add("sched-broken")
         return {"trace": trace, "objects": snapshot, "notes": sorted(notes),
@@ -320,7 +338,7 @@ class Factory(C.Stream):
             unknown = [o for o in td if o not in creator]
             if never and raised_td:
                 fails.append(C.Failure(SIG_D31, f"a teardown_object call raised and objects {never} were never torn down "
-                                                f"(created: {sorted(creator)})"))
+                                                f"(created: {sorted(creator)}) — the behaviour before /repo 8e1157b"))
             elif never:
                 fails.append(C.Failure("C15/factory/instance-never-torn-down",
                                        f"objects {never} were created but never torn down by teardown_factory"))
@@ -371,6 +389,14 @@ class Factory(C.Stream):
                 else "setup-raised")
         if case["td_raise_calls"]:
             f.append("raising-teardown")
+        tds = [ev for ev in obs["trace"] if ev[0] in ("td", "tdbegin", "tdend")]
+        for a, b in zip(tds, tds[1:]):
+            if a[0] == "td" and not a[3] and b[0] == "td":
+                f.append("teardown-continued-after-a-raising-one")
+        if any(ev[0] == "tdend" and ev[2] is not None for ev in tds):
+            f.append("teardown_factory-reraised")
+        if sum(1 for ev in tds if ev[0] == "td" and not ev[3]) >= 2:
+            f.append("several-raising-teardowns")
         if self._overlap(obs):
             f.append("first-access-overlap")
         objs = obs["objects"]
@@ -439,11 +465,17 @@ def _compare_factory(trace, snapshot, nthreads, ans, teardowns, label=""):
     if not ans["quiescent"]:
         return f"{label}the model is still inside get_object/teardown_factory at the end of the trace"
     if teardowns is not None:
-        ends = sum(1 for ev in tr if ev[0] == "tdend" and ev[2] is True)
-        raises = sum(1 for ev in tr if ev[0] == "td" and not ev[3])
-        if (ans["td_begins"], ans["td_ends"], ans["td_raises"]) != (teardowns, ends, raises):
-            return (f"{label}teardown_factory runs: model begins/ends/raises "
-                    f"{(ans['td_begins'], ans['td_ends'], ans['td_raises'])} vs observed {(teardowns, ends, raises)}")
+        outcomes = [ev[2] for ev in tr if ev[0] == "tdend"]
+        ends = sum(1 for o in outcomes if o is None)
+        obj_raises = sum(1 for ev in tr if ev[0] == "td" and not ev[3])
+        got = (ans["td_begins"], ans["td_ends"], ans["td_raises"], ans["td_obj_raises"])
+        exp = (teardowns, ends, len(outcomes) - ends, obj_raises)
+        if got != exp:
+            return (f"{label}teardown_factory runs: model begins/returned/re-raised/raising-teardown_object-calls {got} "
+                    f"vs observed {exp}")
+        if ans["td_outcomes"] != outcomes:
+            return f"{label}teardown_factory outcomes (None = returned, o = re-raised exception of object o): model " \
+                   f"{ans['td_outcomes']} vs observed {outcomes}"
     return None
 
 
@@ -476,28 +508,29 @@ class Run(C.Stream):
     thorough_seconds = 420
     chunk = 40
     corpus = [
-        # D31 witness at run level: session-scoped per-thread generator fixture, 2 workers, the teardown code of the
-        # instance torn down first raises -> the other instance is never torn down
-        {"nb_threads": 2, "mode": "chained", "fixtures": ["ps_gen"], "td_raise_first": "ps_gen", "raise_setup": None,
+        # D31 witness at run level (fixed by 8e1157b, must PASS): session-scoped per-thread generator fixture, 2 workers,
+        # the teardown code of the instance torn down first raises; before the fix the other instance was never torn down
+        {"nb_threads": 2, "mode": "chained", "fixtures": ["ps_gen"], "td_raise": {"fixture": "ps_gen", "calls": [0]}, "raise_setup": None,
          "suites": [{"nested": False, "phases": [[{"uses": [["ps_gen", False]]}, {"uses": [["ps_gen", False]]}]]}]},
         # the same for a suite-scoped one, consumed through a test-scoped fixture
-        {"nb_threads": 3, "mode": "chained", "fixtures": ["pu_gen"], "td_raise_first": "pu_gen", "raise_setup": None,
+        {"nb_threads": 3, "mode": "chained", "fixtures": ["pu_gen"], "td_raise": {"fixture": "pu_gen", "calls": [0]}, "raise_setup": None,
          "suites": [{"nested": False, "phases": [[{"uses": [["pu_gen", True]]}] * 3]}]},
-        # D3 (registered under C01/C07, NOT a C15 violation): a per-thread fixture whose function raises on the first
-        # attempt of every thread, used directly by the tests -> the run raises; nothing is created by a raising call
-        {"nb_threads": 2, "mode": "chained", "fixtures": ["ps_gen"], "td_raise_first": None,
+        # D3 path (repaired in /repo by f2606d5): a per-thread fixture whose function raises on the first attempt of every
+        # thread, used directly by the tests -> the test fails (error log, TestEnd), the run returns False; nothing is
+        # created by a raising call, later tests on the thread retry
+        {"nb_threads": 2, "mode": "chained", "fixtures": ["ps_gen"], "td_raise": None,
          "raise_setup": {"fixture": "ps_gen", "attempts": [0]},
          "suites": [{"nested": False, "phases": [[{"uses": [["ps_gen", False]]}] * 2, [{"uses": [["ps_gen", False]]}] * 2]}]},
         # raising per-thread fixture behind a test-scoped fixture (guarded path): retry by a later test on that thread
-        {"nb_threads": 2, "mode": "chained", "fixtures": ["pu_plain"], "td_raise_first": None,
+        {"nb_threads": 2, "mode": "chained", "fixtures": ["pu_plain"], "td_raise": None,
          "raise_setup": {"fixture": "pu_plain", "attempts": [0]},
          "suites": [{"nested": False, "phases": [[{"uses": [["pu_plain", True]]}] * 2, [{"uses": [["pu_plain", True]]}] * 2,
                                                   [{"uses": [["pu_plain", True]]}]]}]},
         # the existing unit test's shape: 20 tests, 4 threads (no pinning beyond the first phase)
-        {"nb_threads": 4, "mode": "chained", "fixtures": ["ps_plain"], "td_raise_first": None, "raise_setup": None,
+        {"nb_threads": 4, "mode": "chained", "fixtures": ["ps_plain"], "td_raise": None, "raise_setup": None,
          "suites": [{"nested": False, "phases": [[{"uses": [["ps_plain", False]]}] * 4] * 5}]},
         # all four fixtures, two suites + a nested one, reuse across phases
-        {"nb_threads": 3, "mode": "chained", "fixtures": ["ps_plain", "ps_gen", "pu_plain", "pu_gen"], "td_raise_first": None,
+        {"nb_threads": 3, "mode": "chained", "fixtures": ["ps_plain", "ps_gen", "pu_plain", "pu_gen"], "td_raise": None,
          "raise_setup": None,
          "suites": [
              {"nested": False, "phases": [[{"uses": [["ps_gen", False], ["pu_gen", True]]}] * 3,
@@ -528,7 +561,16 @@ class Run(C.Stream):
                     tests.append({"uses": uses})
                 phases.append(tests)
             suites.append({"nested": si > 0 and rng.random() < 0.3 and not suites[si - 1]["nested"], "phases": phases})
-        return {"nb_threads": nb, "mode": mode, "fixtures": fixtures, "td_raise_first": None, "raise_setup": None,
+        gens = [fx for fx in fixtures if FIXTURES[fx][1]]
+        td_raise = None
+        if gens and rng.random() < 0.3:
+            # the teardown code of the k-th torn-down instance(s) of every scope instance of this fixture raises
+            td_raise = {"fixture": rng.choice(gens), "calls": sorted(rng.sample(range(min(nb, 4)), rng.randint(1, min(2, nb))))}
+        raise_setup = None
+        if rng.random() < 0.12:
+            # the first attempt(s) of every thread raise; later tests on the thread retry (D3 path, repaired by f2606d5)
+            raise_setup = {"fixture": rng.choice(fixtures), "attempts": [0] if rng.random() < 0.8 else [0, 1]}
+        return {"nb_threads": nb, "mode": mode, "fixtures": fixtures, "td_raise": td_raise, "raise_setup": raise_setup,
                 "suites": suites}
 
     # ---- the real code ---------------------------------------------------------------------------
@@ -594,10 +636,11 @@ class Run(C.Stream):
             with lock:
                 k = st["td"].get(inst.key, 0)
                 st["td"][inst.key] = k + 1
-                ok = not (case.get("td_raise_first") == fx and k == 0)
+                tdr = case.get("td_raise")
+                ok = not (tdr and tdr["fixture"] == fx and k in tdr["calls"])
                 trace.append(["td", tid(), inst.key, inst.n, ok])
             if not ok:
-                raise _TdBoom("generated teardown failure")
+                raise _TdBoom(inst.n)
 
         fixture_funcs = []
         for fx in case["fixtures"]:
@@ -750,7 +793,7 @@ class Run(C.Stream):
             if n == 0:
                 if key in td_raise_at:
                     fails.append(C.Failure(SIG_D31, f"the teardown code of an instance of {key} raised and instance {o} "
-                                                    f"(thread {creator[o]}) was never torn down"))
+                                                    f"(thread {creator[o]}) was never torn down — the behaviour before /repo 8e1157b"))
                 else:
                     fails.append(C.Failure("C15/run/instance-never-torn-down", f"instance {o} of {key} was never torn down"))
                 continue
@@ -763,8 +806,8 @@ class Run(C.Stream):
             if end is not None and td_at[o][0] > end:
                 fails.append(C.Failure("C15/run/torn-down-after-scope-end",
                                        f"instance {o} of {key} torn down at {td_at[o][0]}, after its scope ended at {end}"))
-            # no end event (the run raised before TestSessionEnd, e.g. D3): the upper bound cannot be observed;
-            # whether the run stays well-formed is C01/C07's question, not C15's
+            # no end event (the run raised before TestSessionEnd): the upper bound cannot be observed; whether the run
+            # stays well-formed is C01/C07's question, not C15's
         return fails
 
     # ---- the model: one factory instance per (fixture, scope instance) ----------------------------------
@@ -782,6 +825,18 @@ class Run(C.Stream):
                 per.setdefault(ev[2], []).append(["td", ev[1], ev[3], ev[4]])
         out = []
         for key in sorted(per):
+            # The return of the creating `get` is observed by the consumer (test body / via fixture).  When ANOTHER
+            # fixture of the same test fails afterwards the body never runs and that return is not observed: it is
+            # inferred right after the creation (the instance exists, so `setup_object` returned normally).
+            evs = per[key]
+            fixed = []
+            for j, ev in enumerate(evs):
+                fixed.append(ev)
+                if ev[0] == "create":
+                    nxt = next((e for e in evs[j + 1:] if e[1] == ev[1]), None)
+                    if not (nxt is not None and nxt[0] == "ret" and nxt[2] == ev[2]):
+                        fixed.append(["ret", ev[1], ev[2]])
+            per[key] = fixed
             tmap, omap, tr = {}, {}, []
             for ev in per[key]:
                 t = tmap.setdefault(ev[1], len(tmap))
@@ -850,13 +905,16 @@ class Run(C.Stream):
             f.append("reuse-by-later-test-on-same-thread")
         if case.get("raise_setup"):
             f.append("raising-setup")
-        if case.get("td_raise_first"):
+        if case.get("td_raise"):
             f.append("raising-teardown")
+            if sum(1 for ev in obs["trace"] if ev[0] == "td" and not ev[4]) >= 1 and any(
+                    ev[0] == "td" and ev[4] for ev in obs["trace"]):
+                f.append("teardown-continued-after-a-raising-one")
         f += ["note:" + n for n in obs["notes"]]
         return sorted(set(f))
 
     def shrink(self, case):
-        for key in ("td_raise_first", "raise_setup"):
+        for key in ("td_raise", "raise_setup"):
             if case.get(key):
                 c = dict(case)
                 c[key] = None
